@@ -26,8 +26,8 @@ import (
 )
 
 type loopFake struct {
-	cronFake // unused methods (they record "unexpected" calls)
-	lmu      sync.Mutex
+	cronFake  // unused methods (they record "unexpected" calls)
+	lmu       sync.Mutex
 	started   []string // base names in call order
 	onStart   func(base string)
 	onRead    func(nthCall int)
